@@ -12,7 +12,7 @@ pub static PROP: Prop = Prop {
     title: "Layering respects dependencies, is as shallow as possible, and flags cycles",
     check,
     max_tape: (120, 220),
-    cases: (80_000, 2_000_000),
+    cases: (300_000, 3_000_000),
     both_profiles: true,
     rule: "generated well-formed diagrams with dependency-heavy shapes weighted up (parallel bundles, cycles with tails, hubs, repeated incidences); non-trivial = at least 2 operations and at least 1 dependency; distinct = hash of the diagram",
     assumptions: &[
